@@ -356,6 +356,28 @@ func (w *world) schedule(r *rand.Rand) []call {
 		at := r.Intn(len(cs) + 1)
 		cs = append(cs[:at], append([]call{{d.blocks, d.desc + "-dup"}}, cs[at:]...)...)
 	}
+	// a call whose blocks are not a contiguous chain (two swapped, or one missing in the middle) is
+	// offered right before the well-formed call it was derived from
+	if r.Intn(3) == 0 {
+		for tries := 0; tries < 6; tries++ {
+			ci := r.Intn(len(cs))
+			if len(cs[ci].blocks) < 3 {
+				continue
+			}
+			bs := append(types.Blocks{}, cs[ci].blocks...)
+			what := "-gap"
+			if r.Intn(2) == 0 {
+				i := r.Intn(len(bs) - 1)
+				bs[i], bs[i+1] = bs[i+1], bs[i]
+				what = "-swapped"
+			} else {
+				i := 1 + r.Intn(len(bs)-2)
+				bs = append(bs[:i], bs[i+1:]...)
+			}
+			cs = append(cs[:ci], append([]call{{bs, cs[ci].desc + what}}, cs[ci:]...)...)
+			break
+		}
+	}
 	return cs
 }
 
